@@ -336,36 +336,50 @@ def gen_instant(rng, whole=None):
 
 
 def time_model(ctx, n):
-    from pyorbital import astronomy
+    from pyorbital import astronomy, orbital
+    o = orbital_obj()
+    ep_us = int(o.tle.epoch.astype("datetime64[us]").astype("int64"))
     cases = []
     for _ in range(n):
         t = gen_instant(ctx.rng)
         for u in UNITS:
             if u == "s" and t.microsecond or u == "ms" and t.microsecond % 1000:
                 continue
-            cases.append((t, u, ticks_of(t, u)))
+            k = ticks_of(t, u)
+            fin = "ns" if u == "ns" else "us"            # unit of dt2np(t) - t_0 (the epoch is datetime64[us])
+            since = ticks_of(t, fin) - ep_us * (1000 if fin == "ns" else 1)
+            cases.append((t, u, k, fin, since))
     cu = {"s": "US_s", "ms": "US_ms", "us": "US_us", "ns": "US_ns"}
     text = COQ_HEAD + ("Definition qz (x : Q) : list Z := [Qnum (Qred x); Zpos (Qden (Qred x))].\n"
-                       "Eval vm_compute in (flat_map (fun c => qz (days_float (fst c) (snd c)) ++ qz (minutes_float (fst c) (snd c))) [%s]).\n"
-                       % "; ".join("(%s, %d)" % (cu[u], k) for _t, u, k in cases))
+                       "Eval vm_compute in (flat_map (fun c => qz (days_float (fst (fst c)) (snd (fst c))) ++ qz (minutes_float (fst (snd c)) (snd (snd c)))\n"
+                       "   ++ qz (fdiv_ticks (snd (snd c)) (60 * ticks_per_second (fst (snd c))))) [%s]).\n"
+                       % "; ".join("((%s, %d), (%s, %d))" % (cu[u], k, cu[fin], since) for _t, u, k, fin, since in cases))
     ok, out = common.coq_eval("c08_time", text, timeout=600)
-    ctx.checker_cmds.append("coqc cases_c08_time.v (binary64 model of _days and of minutes since epoch, %d instants x units)" % len(cases))
+    ctx.checker_cmds.append("coqc cases_c08_time.v (binary64 model of _days, of the minutes since epoch and of numpy's tick division, %d instants x units)" % len(cases))
     blocks = parse_lists(out) if ok else []
-    if not ok or not blocks or len(blocks[0]) != 4 * len(cases):
+    if not ok or not blocks or len(blocks[0]) != 6 * len(cases):
         ctx.corr_fail("M_Kinds.days_float evaluation in Coq", {"error": out[-500:]})
         return
     vals = blocks[0]
-    for i, (t, u, k) in enumerate(cases):
-        md = Fraction(vals[4 * i], vals[4 * i + 1])
-        mm = Fraction(vals[4 * i + 2], vals[4 * i + 3])
+    for i, (t, u, k, fin, since) in enumerate(cases):
+        md = Fraction(vals[6 * i], vals[6 * i + 1])
+        mm = Fraction(vals[6 * i + 2], vals[6 * i + 3])
+        mq = Fraction(vals[6 * i + 4], vals[6 * i + 5])
         gd = Fraction(float(astronomy.jdays2000(np.datetime64(k, u))))
-        gm = Fraction(float(np.timedelta64(k, u) / np.timedelta64(1, "m")))
+        kep = orbital._Keplerians(o._sgdp4._params)
+        kep._utc_time = np.datetime64(k, u)
+        kep._get_timedelta_in_minutes()
+        gm = Fraction(float(kep._ts))
+        gq = Fraction(float(np.timedelta64(since, fin) / np.timedelta64(1, "m")))
         ctx.case(("time-model", t.isoformat(), u), {"instant": t.isoformat(), "unit": u, "model_days": str(md), "impl_days": str(gd)} if i == 0 else None)
         if md != gd:
             ctx.corr_fail("M_Kinds.days_float (binary64, bit-exact) vs astronomy.jdays2000", {"instant": t.isoformat(), "unit": u, "ticks": k, "model": str(md), "impl": str(gd)})
         if mm != gm:
-            ctx.corr_fail("M_Kinds.minutes_float (binary64, bit-exact) vs numpy timedelta64 / timedelta64(1,'m')",
-                          {"unit": u, "ticks": k, "model": str(mm), "impl": str(gm)})
+            ctx.corr_fail("M_Kinds.minutes_float (binary64, bit-exact) vs _Keplerians._get_timedelta_in_minutes",
+                          {"instant": t.isoformat(), "unit": u, "ticks_since_epoch": since, "model": str(mm), "impl": str(gm)})
+        if mq != gq:
+            ctx.corr_fail("oracle fact M_Kinds.fdiv_ticks (binary64, bit-exact) vs numpy timedelta64 / timedelta64(1,'m')",
+                          {"unit": fin, "ticks": since, "model": str(mq), "numpy": str(gq)})
 
 
 # ------------------------------------------------------------------------------------------------ oracle
@@ -418,15 +432,21 @@ def timekind_oracle(ctx, n):
         ("Orbital.get_observer_look", lambda t: o.get_observer_look(t, 10.5, 20.25, 0.5), "near"),
         ("Orbital.get_position(far from epoch)", lambda t: tuple(o.get_position(t)[0]), "far"),
     ]
-    for i in range(n):
+    # regression instants: ns ticks since J2000 / since epoch above 2^53 (double rounding of a plain tick quotient),
+    # scalar pow() vs array square in the propagator and in the sub-point iteration
+    regression = [dt.datetime(2007, 10, 18, 15, 10, 14, 536334), dt.datetime(2011, 10, 6, 6, 52, 24, 921998),
+                  dt.datetime(2014, 4, 22, 7, 3, 19, 776970), dt.datetime(2014, 9, 1, 20, 30, 34, 406281)]
+    for i in range(n + len(regression)):
         for name, f, where in fns:
-            if where == "any":
+            if i < len(regression):
+                t = regression[i]
+            elif where == "any":
                 t = gen_instant(ctx.rng)
-            elif where == "near":
-                t = ep + dt.timedelta(days=ctx.rng.uniform(-60, 60))
-                t = gen_instant(ctx.rng) .replace(year=t.year, month=t.month, day=min(t.day, 28), hour=t.hour)
             else:
-                t = ep + dt.timedelta(days=ctx.rng.uniform(840, 2500), microseconds=ctx.rng.randrange(10**6))
+                days = ctx.rng.uniform(-60, 60) if where == "near" else ctx.rng.uniform(840, 2500)
+                t = ep + dt.timedelta(days=days, microseconds=ctx.rng.randrange(10**6))
+                whole = ctx.rng.choice(["us", "us", "ms", "s"])
+                t = t.replace(microsecond=0 if whole == "s" else (t.microsecond // 1000 * 1000 if whole == "ms" else t.microsecond))
             ref = None
             for rname, rep in time_reprs(t):
                 try:
@@ -440,6 +460,8 @@ def timekind_oracle(ctx, n):
                 else:
                     b = r
                 ctx.case(("timekind", name, t.isoformat(), rname), {"entry": name, "instant": t.isoformat(), "representation": rname} if i == 0 and name == "gmst" else None)
+                if where == "far" and isinstance(r, str):
+                    break     # the propagator refuses this TLE so far from its epoch
                 if ref is None:
                     ref = (rname, b, r)
                 elif b != ref[1]:
